@@ -36,6 +36,8 @@ use vh::report::Tier;
 mod tokens;
 #[path = "../shared/fee_target.rs"]
 mod fee_target;
+#[path = "../shared/zz_bad_fwd.rs"]
+mod zz_bad_fwd;
 #[path = "/repo/examples/fee-forwarder-permissionless/src/contract.rs"]
 mod permissionless_example;
 #[path = "/repo/examples/fee-forwarder-permissioned/src/contract.rs"]
@@ -601,7 +603,10 @@ impl World for Fw {
             auth::back(&e, a);
         }
         let fwd = match self.flavour {
-            Flavour::Permissionless => e.register(permissionless_example::FeeForwarder, ()),
+            Flavour::Permissionless => match std::env::var("C19_SEEDED").ok().and_then(|s| s.parse::<u32>().ok()) {
+                Some(k) => e.register(zz_bad_fwd::BadFwd, (k,)),
+                None => e.register(permissionless_example::FeeForwarder, ()),
+            },
             Flavour::Permissioned => {
                 let mut ex: SVec<Address> = SVec::new(&e);
                 ex.push_back(r.clone());
@@ -836,17 +841,21 @@ fn main() {
     main_with(
         "C19",
         "model_checking",
-        "level-BFS over histories on the real fee-forwarder examples (permissionless = Eager, permissioned = Lazy + allow-list) with library tokens as fee tokens and a logging / failing target. forwards mode: forward(user in {U, relayer, forwarder}, fee in {-1,0,1,max,max+1}, max in {0,5}, expiration in {now-1,now,now+1[,max_ttl+1]}, target ok/failing, fee token T1[,T2]) x pre-existing allowance {none,4,5,6} [x advance], seeds {rich, poor user} x allow-list {[],[T1],[T2]}, target fn without/with own user authorization; lists mode: enable/disable of T1..T3[T4] by manager / non-manager with forward probes. After every accepted step all balances, allowances, call logs and the allow-list storage are compared with the model; every refused step must leave the storage digest of all contracts unchanged; every accepted forward is re-run from the rebuilt pre-state under enforcing authorization with the full set, every principal dropped / replaced by a bystander, and the user's tree tampered in each of {fee token, max fee, expiration, target, fn, argument}; non-trivial = distinct storage state reached through >=1 accepted call",
+        "level-BFS over histories on the real fee-forwarder examples (permissionless = Eager, permissioned = Lazy + allow-list) with library tokens as fee tokens and a logging / failing target. forwards mode: forward(user in {U, relayer, forwarder}, fee in {-1,0,1,max,max+1}, max in {0,5[,-1,i128::MAX]}, expiration in {now-1,now,now+1[,max_ttl+1]}, target ok/failing, fee token T1[,T2]) x pre-existing allowance {none,4,5,6} [x advance], seeds {rich, poor user} x allow-list {[],[T1],[T2]}, target fn without/with own user authorization; lists mode: enable/disable of T1..T3[T4] by manager / non-manager with forward probes. After every accepted step all balances, allowances, call logs and the allow-list storage are compared with the model; every refused step must leave the storage digest of all contracts unchanged; every accepted forward is re-run from the rebuilt pre-state under enforcing authorization with the full set, every principal dropped / replaced by a bystander, and the user's tree tampered in each of {fee token, max fee, expiration, target, fn, argument}; non-trivial = distinct storage state reached through >=1 accepted call",
         |tier: Tier, r: &mut Runner| {
             let th = tier == Tier::Thorough;
-            let wall = tier.pick(40, 560);
             for flavour in [Flavour::Permissionless, Flavour::Permissioned] {
+                // (depth, wall cap) per world; worst case of all caps: quick 42 s, thorough 560 s
+                let (depth, wall) = match flavour {
+                    Flavour::Permissionless => (tier.pick(5, 6), tier.pick(5, 50)),
+                    Flavour::Permissioned => (tier.pick(3, 4), tier.pick(14, 210)),
+                };
                 for tf in [TFn::Ping, TFn::Act] {
-                    r.world(&Fw { flavour, mode: Mode::Forwards, tf, thorough: th }, &Bounds::new(std::env::var("C19_D").ok().and_then(|s| s.parse().ok()).unwrap_or(tier.pick(3, 5)), wall));
+                    r.world(&Fw { flavour, mode: Mode::Forwards, tf, thorough: th }, &Bounds::new(depth, wall));
                 }
             }
             for tf in [TFn::Ping, TFn::Act] {
-                r.world(&Fw { flavour: Flavour::Permissioned, mode: Mode::Lists, tf, thorough: th }, &Bounds::new(tier.pick(5, 7), wall));
+                r.world(&Fw { flavour: Flavour::Permissioned, mode: Mode::Lists, tf, thorough: th }, &Bounds::new(tier.pick(5, 7), tier.pick(2, 20)));
             }
             if let Some(rep) = r.report() {
                 rep.require(
